@@ -254,6 +254,14 @@ package olareg
 //@             400 <= resp.status && resp.status < 500 && mutations() == old(mutations())
 //@   ensures [reads-do-not-mutate]{C14} req.Method == "GET" || req.Method == "HEAD" ==> mutations() == old(mutations())
 //@   ensures [lock-released] !held(s.mu)
+//@   -- rate limit (C19): the entry of the address counts the requests of the current accounting second exactly;
+//@   -- a request is refused exactly when its count exceeds the limit; without a limit nothing is refused
+//@   assert [rate-entry]{C19} before "s.mu.Unlock()": limit != nil && limit.count == count
+//@   assert [rate-window]{C19} before "s.mu.Unlock()": old(allocated(now(limit))) && limit.first - old(now(limit).first) == 0 ==> count == old(now(limit).count) + 1
+//@   assert [rate-new-window]{C19} before "s.mu.Unlock()": count == 1 || (old(allocated(now(limit))) && limit.first == old(now(limit).first) && count == old(now(limit).count) + 1)
+//@   assert [rate-deny]{C19} before "WriteHeader(http.StatusTooManyRequests)": s.conf.API.RateLimit > 0 && count > s.conf.API.RateLimit
+//@   assert [rate-pass]{C19} before call matchV2#1: s.conf.API.RateLimit > 0 ==> count <= s.conf.API.RateLimit
+//@   ensures [no-limit-no-429]{C19} old(s.store != nil) && s.conf.API.RateLimit <= 0 ==> resp.status != 429
 //@   loop 1: invariant [warnings] s != nil && resp != nil && resp.status == 0 && !fault() && mutations() == old(mutations()) && rangeindex < len(s.conf.API.Warnings)
 
 //@ func referrerSplit(inBytes []byte, limit int64) (result [][]byte, err error)
